@@ -780,7 +780,10 @@ impl Buffer {
         for y in 0..rect.get_height() {
             for x in 0..rect.get_width() {
                 let ch = self.get_char((x + rect.start.x, y + rect.start.y));
-                let font = self.get_font(ch.get_font_page()).unwrap();
+                // a font page without a font (a layer's default font page need not have one) is drawn with font 0
+                let Some(font) = self.get_font(ch.get_font_page()).or_else(|| self.get_font(0)) else {
+                    continue;
+                };
 
                 let fg = if ch.attribute.is_bold() && ch.attribute.get_foreground() < 8 {
                     ch.attribute.get_foreground() + 8
